@@ -50,20 +50,49 @@ package utils
 // position (shifted by lead); before an element that needs a separator there is one byte of slack (the slash
 // consumed from the input), and a pending trailing slash has its byte of slack too.
 //@ macro cpLead(p) = ite(p[0] == '/', 0, 1)
+// The output so far is the input itself while no buffer has been needed, else the buffer. cpC(x, w): x[0:w) is a
+// clean rooted path - starts with '/', no "//", does not end in '/' unless it is "/" itself. cpS(x, a, w): the same
+// for x[0:a) except that x[a-1] is the '/' in front of the element being copied, and x[a:w) has no '/'.
+//@ macro cpA(zx, zw) = zx[0] == '/' && (zw > 1 ==> zx[zw - 1] != '/') && !(zw >= 3 && zx[zw-3] == '/' && zx[zw-2] == '.' && zx[zw-1] == '.') && !(zw >= 2 && zx[zw-2] == '/' && zx[zw-1] == '.')
+//@ macro cpQ1(zx, zw) = forall(k, 0, zw - 1, !(zx[k] == '/' && zx[k+1] == '/'))
+//@ macro cpQ2(zx, zw) = forall(k, 0, zw - 2, !(zx[k] == '/' && zx[k+1] == '.' && zx[k+2] == '/'))
+//@ macro cpQ3(zx, zw) = forall(k, 0, zw - 3, !(zx[k] == '/' && zx[k+1] == '.' && zx[k+2] == '.' && zx[k+3] == '/'))
+//@ macro cpNS(zx, za, zw) = forall(k, za, zw, zx[k] != '/')
+//@ macro cpCp(zx, za, zw, zp, zr) = forall(k, za, zw, zx[k] == zp[k - za + zr])
+// cpSeg(p, r, n): the element starting at p[r] is neither "." nor ".." (what the switch has excluded)
+//@ macro cpSeg(zp, zr, zn) = zr < zn && zp[zr] != '/' && !(zp[zr] == '.' && (zr + 1 == zn || zp[zr+1] == '/')) && !(zp[zr] == '.' && zr + 1 < zn && zp[zr+1] == '.' && (zr + 2 == zn || zp[zr+2] == '/'))
 //@ macro cpBuf(p, buf, n) = oldMemKept() && fresh(buf) && (cpLead(p) == 1 ==> len(buf) == n + 1) && (cpLead(p) == 0 ==> len(buf) == 0 || len(buf) == n)
 //@ func bufApp(buf, s, w, c)
 //@   props C07
-//@   requires buf != nil && 0 <= w && len(s) < 281474976710656 && (len(*buf) == 0 ==> w < len(s)) && (len(*buf) != 0 ==> w < len(*buf))
+//@   requires buf != nil && 0 <= w && len(s) < 281474976710656 && (len(*buf) == 0 ==> w < len(s)) && (len(*buf) != 0 ==> w < len(*buf)) && !mayAlias(*buf, s)
 //@   modifies *buf, bytes(*buf), spare(*buf)
 //@   allocates
 //@   ensures (fresh(*buf) || sameArray(*buf, old(*buf))) && (old(len(*buf)) != 0 ==> len(*buf) == old(len(*buf))) && (old(len(*buf)) == 0 ==> len(*buf) == 0 || len(*buf) == len(s))
+//@   ensures len(*buf) != 0 ==> (*buf)[w] == c
+//@   ensures len(*buf) == 0 ==> s[w] == c
+//@   ensures old(len(*buf)) != 0 ==> forall(k, 0, w, (*buf)[k] == old((*buf)[k]))
+//@   ensures old(len(*buf)) == 0 && len(*buf) != 0 ==> forall(k, 0, w, (*buf)[k] == s[k])
 
 //@ func CleanPath(p) r
 //@   props C07
 //@   replay-go al := []byte("/.a"); var rec func(x []byte, d int); rec = func(x []byte, d int) { r := CleanPath(string(x)); bad := len(r) == 0 || r[0] != '/'; for _, seg := range strings.Split(r, "/") { if seg == ".." || seg == "." { bad = true } }; if strings.Contains(r, "//") { bad = true }; if bad { fmt.Printf("VCGO-VIOLATED CleanPath(%q) = %q: not rooted, or a '.', '..' or empty element is left\n", x, r); panic("stop") }; if d == 0 { return }; for _, c := range al { rec(append(append([]byte{}, x...), c), d-1) } }; rec(nil, 7)
 //@   requires len(p) < 281474976710656
 //@   allocates
+//@   top-ensures len(r) >= 1 && r[0] == '/'
+//@   top-ensures forall(k, 0, len(r) - 1, !(r[k] == '/' && r[k+1] == '/'))
+//@   top-ensures forall(k, 0, len(r) - 2, !(r[k] == '/' && r[k+1] == '.' && r[k+2] == '/'))
+//@   top-ensures forall(k, 0, len(r) - 3, !(r[k] == '/' && r[k+1] == '.' && r[k+2] == '.' && r[k+3] == '/'))
+//@   top-ensures !(len(r) >= 3 && r[len(r)-3] == '/' && r[len(r)-2] == '.' && r[len(r)-1] == '.')
+//@   top-ensures !(len(r) >= 2 && r[len(r)-2] == '/' && r[len(r)-1] == '.')
 //@   loop 0:
+//@     invariant len(buf) == 0 ==> cpA(p, w)
+//@     invariant len(buf) == 0 ==> cpQ1(p, w)
+//@     invariant len(buf) == 0 ==> cpQ2(p, w)
+//@     invariant len(buf) == 0 ==> cpQ3(p, w)
+//@     invariant len(buf) != 0 ==> cpA(buf, w)
+//@     invariant len(buf) != 0 ==> cpQ1(buf, w)
+//@     invariant len(buf) != 0 ==> cpQ2(buf, w)
+//@     invariant len(buf) != 0 ==> cpQ3(buf, w)
 //@     invariant n == len(p) && n >= 1 && 0 <= r && r <= n + 1 && 1 <= w && w <= r + cpLead(p) && w <= n + cpLead(p) && (cpLead(p) == 0 ==> r >= 1)
 //@     invariant cpBuf(p, buf, n)
 //@     invariant r < n && p[r] != '/' && w > 1 ==> w + 1 <= r + cpLead(p)
@@ -71,8 +100,24 @@ package utils
 //@     invariant trailing && r >= n ==> w + 1 <= n + cpLead(p)
 //@   loop 1:
 //@     invariant 1 <= w && w + 3 <= r + cpLead(p) && w + 2 <= n + cpLead(p) && oldMemKept()
+//@     invariant w <= atentry(w)
 //@   loop 2:
 //@     invariant 1 <= w && w + 3 <= r + cpLead(p) && w + 2 <= n + cpLead(p) && oldMemKept()
+//@     invariant w <= atentry(w)
 //@   loop 3:
 //@     invariant 0 <= r && r <= n && 1 <= w && w <= r + cpLead(p) && cpBuf(p, buf, n) && (cpLead(p) == 0 ==> r >= 1)
 //@     invariant trailing ==> n > 1 && p[n-1] == '/' && r < n
+//@     invariant atentry(w) <= w && atentry(r) <= r && w - r == atentry(w) - atentry(r)
+//@     invariant cpSeg(p, atentry(r), n) && atentry(w) >= 1 && forall(k, atentry(r), r, p[k] != '/')
+//@     invariant len(buf) == 0 ==> p[0] == '/' && p[atentry(w) - 1] == '/'
+//@     invariant len(buf) == 0 ==> cpQ1(p, atentry(w))
+//@     invariant len(buf) == 0 ==> cpQ2(p, atentry(w))
+//@     invariant len(buf) == 0 ==> cpQ3(p, atentry(w))
+//@     invariant len(buf) == 0 ==> cpNS(p, atentry(w), w)
+//@     invariant len(buf) == 0 ==> cpCp(p, atentry(w), w, p, atentry(r))
+//@     invariant len(buf) != 0 ==> buf[0] == '/' && buf[atentry(w) - 1] == '/'
+//@     invariant len(buf) != 0 ==> cpQ1(buf, atentry(w))
+//@     invariant len(buf) != 0 ==> cpQ2(buf, atentry(w))
+//@     invariant len(buf) != 0 ==> cpQ3(buf, atentry(w))
+//@     invariant len(buf) != 0 ==> cpNS(buf, atentry(w), w)
+//@     invariant len(buf) != 0 ==> cpCp(buf, atentry(w), w, p, atentry(r))
